@@ -39,25 +39,40 @@ ASSUMPTIONS = [
 
 # (class, method, callee-text) -> (verdict, reason).  Frozen after reading; see DESIGN.md Appendix C.2
 TRIAGE = {
-    ("DeMoorSingleProductPerishable", "_calculate_demand_probabilities", "numpyro.distributions.Gamma(gamma_alpha, gamma_beta).cdf"):
+    ("DeMoorSingleProductPerishable", "_calculate_demand_probabilities", "Gamma.cdf"):
         ("closed", "grid to D+0.5, tail folded by .at[-1].add(1 - sum) - checked as a term identity below"),
-    ("MirjaliliPlateletPerishable", "_calculate_demand_probabilities", "demand_dist.log_prob"):
+    ("MirjaliliPlateletPerishable", "_calculate_demand_probabilities", "NegativeBinomialProbs.log_prob"):
         ("closed", "0..D, tail folded by .at[max_demand].add(1 - sum) - checked as a term identity below"),
-    ("MirjaliliPlateletPerishable", "_calculate_received_order_probabilities", "dist.log_prob"):
+    ("MirjaliliPlateletPerishable", "_calculate_received_order_probabilities", "Multinomial.log_prob"):
         ("closed", "Multinomial has finite support {sum == order}; the event space lists it (R13.3)"),
-    ("HendrixTwoProductPerishable", "_get_probs_ia_lt_stock_a_ib_lt_stock_b", "jax.scipy.stats.poisson.pmf"):
+    ("HendrixTwoProductPerishable", "_get_probs_ia_lt_stock_a_ib_lt_stock_b", "poisson.pmf"):
         ("closed", "masked i < stock; the complement mass is placed by the eq cases (1 - cdf(stock-1) / pz column)"),
-    ("HendrixTwoProductPerishable", "_get_probs_ia_eq_stock_a_ib_lt_stock_b", "jax.scipy.stats.poisson.pmf"):
+    ("HendrixTwoProductPerishable", "_get_probs_ia_eq_stock_a_ib_lt_stock_b", "poisson.pmf"):
         ("closed", "masked i < stock_b, paired with case 1"),
-    ("HendrixTwoProductPerishable", "_get_probs_ia_eq_stock_a_ib_lt_stock_b", "jax.scipy.stats.poisson.cdf"):
+    ("HendrixTwoProductPerishable", "_get_probs_ia_eq_stock_a_ib_lt_stock_b", "poisson.cdf"):
         ("closed", "1 - cdf(stock_a - 1): exact complement of sum_{i<stock_a} pmf(i)"),
-    ("HendrixTwoProductPerishable", "_calculate_pu", "scipy.stats.poisson.pmf"):
+    ("HendrixTwoProductPerishable", "_calculate_pu", "poisson.pmf"):
         ("open", "Poisson demand for B truncated at max_demand - y = m*(max(Qa,Qb)+2) - y, a point independent of the Poisson mean, no tail folding"),
-    ("HendrixTwoProductPerishable", "_calculate_pu", "scipy.stats.binom.pmf"):
+    ("HendrixTwoProductPerishable", "_calculate_pu", "binom.pmf"):
         ("closed", "Binomial over its full support for each x (finite)"),
-    ("HendrixTwoProductPerishable", "_calculate_pz", "scipy.stats.poisson.pmf"):
+    ("HendrixTwoProductPerishable", "_calculate_pz", "poisson.pmf"):
         ("open", "Poisson demand for A truncated at max_demand, a point independent of the Poisson mean, no tail folding"),
 }
+
+
+def _family(fn, recv) -> str:
+    """Distribution family of the receiver of .pmf/.cdf/.log_prob: last name of the constructor /
+    module path, following one local assignment (dist = Family(...); dist.log_prob(x))."""
+    if isinstance(recv, ast.Call):
+        return _family(fn, recv.func)
+    if isinstance(recv, ast.Attribute):
+        return recv.attr
+    if isinstance(recv, ast.Name):
+        for s in ast.walk(fn):
+            if isinstance(s, ast.Assign) and any(isinstance(t, ast.Name) and t.id == recv.id for t in s.targets) and isinstance(s.value, ast.Call):
+                return _family(fn, s.value.func)
+        return recv.id
+    return ast.unparse(recv)
 
 
 def _call_sites(ctx):
@@ -67,7 +82,7 @@ def _call_sites(ctx):
             for c in ast.walk(fn):
                 if isinstance(c, ast.Call) and isinstance(c.func, ast.Attribute) and c.func.attr in (
                         "pmf", "cdf", "log_prob", "pdf", "sf", "logpmf", "logcdf", "icdf", "sample"):
-                    out.append((cls, name, fn, c, ast.unparse(c.func)))
+                    out.append((cls, name, fn, c, f"{_family(fn, c.func.value)}.{c.func.attr}"))
     return out
 
 
